@@ -40,6 +40,8 @@ inch = 2 * ua = in
 foot = 12 * inch = ft
 mile = 5280 * foot
 rate = mile / sec
+span = 2 * ua
+dspan = 3 * span
 @context R
     foot = 10 * inch
 @end
@@ -71,6 +73,7 @@ EVENTS = [
     ("q", "conv"), ("q", "parse"), ("q", "root"), ("q", "base"), ("q", "base_fsys"), ("q", "compat"), ("q", "dim"), ("q", "fmt"), ("q", "compact"), ("q", "expr"), ("q", "tobase"),
     ("define", "foo = 3 * inch"), ("define", "ms = 5 * ua"), ("define", "league = 3 * mile = lg"),
     ("define", "inch = 5 * ua = in"),  # an EXISTING unit defined again (allowed: on_redefinition='warn'): everything derived from it follows
+    ("define", "span = 4 * sec"),  # ... and one defined again as a unit of ANOTHER dimension
     ("enable", "R"), ("enable", "RB"), ("disable",),
     ("system", "fsys"), ("system", "isys"), ("system", None),
     ("other",), ("deepcopy",),
@@ -82,6 +85,7 @@ EVENTS = [
 
 
 REDEFINE = ("define", "inch = 5 * ua = in")
+REDEFINE2 = ("define", "span = 4 * sec")
 
 
 def fr(x):
@@ -116,8 +120,9 @@ QUERIES = {
     "league": lambda r: [fr(r.convert(1, "lg", "ua")), "league" in [next(iter(u._units)) for u in r.get_compatible_units("ua", "root")]],
     # a parameterised context used per call WITHOUT a keyword: its declared default applies, whatever was passed earlier
     "pconv": lambda r: fr(r.Quantity(1, "ua").to("sec", "P").magnitude),
+    "span": lambda r: [sorted((k, fr(v)) for k, v in dict(r.get_dimensionality("dspan")).items()), call(lambda: fr(r.convert(1, "dspan", "sec"))), call(lambda: fr(r.convert(1, "dspan", "ua"))), r.Quantity(1, "dspan").is_compatible_with("sec")],
 }
-PROBES = ["conv", "parse", "root", "base", "base_fsys", "compat", "compat_root", "dim", "fmt", "compact", "expr", "tobase", "foo", "ms", "league", "pconv"]
+PROBES = ["conv", "parse", "root", "base", "base_fsys", "compat", "compat_root", "dim", "fmt", "compact", "expr", "tobase", "foo", "ms", "league", "pconv", "span"]
 
 
 class Sys:
@@ -166,7 +171,7 @@ class CacheDriver(explore.Driver):
                 depth += 1
             elif e[0] == "disable" and depth:
                 depth -= 1
-        return [e for e in EVENTS if not (e == REDEFINE and depth)]
+        return [e for e in EVENTS if not (e in (REDEFINE, REDEFINE2) and depth)]
 
     def apply(self, s, ev):
         r = s.reg
